@@ -294,11 +294,9 @@ func runDecoder(name string, b []byte, watched bool) (v verdict) {
 	}
 	if name == "DecompressSnapshot" {
 		if size, huge := declaredHuge(b); huge {
-			if !kit.NoExclusions() {
-				v.reached = true
-				v.excluded = findingZstd
-				return v
-			}
+			// F40 (no decoder memory cap: an 18-byte frame declaring 64 GiB
+			// killed the process) is repaired; such frames are executed, in a
+			// child process so that a regression ends the child, not the shard.
 			return runInChild(name, b, size)
 		}
 	}
